@@ -2703,7 +2703,7 @@ impl Formatter {
       if i == 0 {
         src = format!("{}", e);
       } else {
-        src = format!("{},{}", src, e);
+        src = format!("{}, {}", src, e);
       }
     }
     if self.html {
